@@ -44,7 +44,7 @@ impl Property for C15 {
         "C15"
     }
     fn rule(&self) -> String {
-        "Cases: (zoo type, string, binary|hex): valid digit strings (mixed case, leading zeros, empty) of 0..C+4 characters (<=300 for Bvd/Bv, both sides of the 128-bit inline limit), and strings with one or several offending characters at generated positions drawn from ASCII near-misses (2 g G space + _ x -) and non-ASCII (e-acute, Arabic-Indic and full-width digits, emoji, full-width A); plus parse(format(v)) round trips for {:b},{:x},{:X}. Oracle: reference parser over chars(): all valid and fitting -> length |s| (4|s|), first character most significant; fitting with an offending character -> InvalidFormat(index of the first one, in characters); all valid and too long -> NotEnoughCapacity; too long and invalid -> some Err. Enumerated: every error position for every string length <=min(C+1,140) per type and radix; all binary strings of length <=10. Non-trivial: |s|>0 and (leading zeros, or an error position other than 0, or a length within 1 character of the capacity / inline limit, or mixed case). Distinct by hash of the case.".into()
+        "Cases: (zoo type, string, binary|hex): valid digit strings (mixed case, leading zeros, empty) of 0..C+4 characters (<=300 for Bvd/Bv, both sides of the 128-bit inline limit), and strings with one or several offending characters at generated positions drawn from ASCII near-misses (2 g G space + _ x -) and non-ASCII (e-acute, Arabic-Indic and full-width digits, emoji, full-width A); plus parse(format(v)) round trips for {:b},{:x},{:X}. Oracle: reference parser over chars(): all valid and fitting -> length |s| (4|s|), first character most significant; fitting with an offending character -> InvalidFormat(index of the first one, in characters); all valid and too long -> NotEnoughCapacity; too long and invalid -> some Err. Long inputs: round trips at 1024..32768 bits and every length 321..2600 (thorough 8300); the 70 400-bit fixed type with strings of capacity-1, capacity and capacity+1 digits in both radices and an offending character at 5 positions; a geometric ladder of lengths around every power of two from 2^14 to 2^21 (thorough 2^24) bits on Bvd/Bv (round trip, and an offending character deep inside). Enumerated: every error position for every string length <=min(C+1,140) per type and radix; all binary strings of length <=10. Non-trivial: |s|>0 and (leading zeros, or an error position other than 0, or a length within 1 character of the capacity / inline limit, or mixed case). Distinct by hash of the case.".into()
     }
     fn random_cases(&self, tier: Tier) -> u64 {
         tier.pick(250000, 8000000)
@@ -85,7 +85,7 @@ impl Property for C15 {
         ]
     }
     fn enumerate(&self, tier: Tier, sh: &mut Shard, f: &mut dyn FnMut(C15Case) -> bool) {
-        for ty in 0..NT {
+        for ty in ROUTINE_TIDS {
             for hex in [false, true] {
                 let per = if hex { 4 } else { 1 };
                 let maxc = fixed_cap(ty).map_or(140, |c| (c / per + 1).min(140));
@@ -127,6 +127,50 @@ impl Property for C15 {
                 }
             }
         }
+        // the 70 400-bit fixed type (long strings that fit, just fit, and do not fit) and a
+        // geometric ladder of lengths up to megabits on the unbounded types
+        for n in HUGE_TYPE_LENS {
+            if !sh.mine() {
+                continue;
+            }
+            for a in [Bits::ones(n), dense_value(n)] {
+                if !f(C15Case::RoundTrip { a: Operand::canon(TID_HUGE, a) }) {
+                    return;
+                }
+            }
+        }
+        for (hex, nd) in [(false, 70_399usize), (false, 70_400), (false, 70_401), (true, 17_599), (true, 17_600), (true, 17_601), (false, 65_537), (true, 16_385)] {
+            if !sh.mine() {
+                continue;
+            }
+            let valid: Vec<char> = (0..nd).map(|i| if hex { b"0f1E9a"[i % 6] as char } else { b"011"[i % 3] as char }).collect();
+            if !f(C15Case::Parse { ty: TID_HUGE, s: valid.iter().collect(), hex }) {
+                return;
+            }
+            for pos in [0usize, 1, nd / 2, nd - 65_536.min(nd - 1), nd - 1] {
+                let mut c = valid.clone();
+                c[pos] = if hex { 'g' } else { '2' };
+                if !f(C15Case::Parse { ty: TID_HUGE, s: c.into_iter().collect(), hex }) {
+                    return;
+                }
+            }
+        }
+        for (t, n) in ladder_lengths(tier) {
+            if !sh.mine() {
+                continue;
+            }
+            if !f(C15Case::RoundTrip { a: Operand::canon(t, dense_value(n)) }) {
+                return;
+            }
+            // an invalid character deep inside a long string
+            let hex = n % 2 == 0;
+            let nd = if hex { n / 4 } else { n };
+            let mut c: Vec<char> = (0..nd).map(|i| if hex { b"0f1E9a"[i % 6] as char } else { b"011"[i % 3] as char }).collect();
+            c[nd - nd / 3] = '\u{661}';
+            if !f(C15Case::Parse { ty: t, s: c.into_iter().collect(), hex }) {
+                return;
+            }
+        }
         for (t, n) in dense_lengths(tier) {
             if !sh.mine() {
                 continue;
@@ -135,7 +179,7 @@ impl Property for C15 {
                 return;
             }
         }
-        for ty in 0..NT {
+        for ty in ROUTINE_TIDS {
             if !sh.mine() {
                 continue;
             }
@@ -244,6 +288,14 @@ impl Property for C15 {
                 });
                 for (s, hex, name) in [(&sb, false, "{:b}"), (&sx, true, "{:x}"), (&sxx, true, "{:X}")] {
                     let per = if hex { 4 } else { 1 };
+                    if fixed_cap(a.ty).map_or(false, |c| s.len() * per > c) {
+                        // only the zero-word types: their empty vector prints as "0", which needs
+                        // a bit (a nibble) they do not have
+                        match parse_call(a.ty, s, hex) {
+                            Ok(Err(ConvertionError::NotEnoughCapacity)) => continue,
+                            other => fail!(format!("{}/accepted-overflow", what), "parsing the {} output {:?} of {} (capacity {}) gave {:?}", name, s, a.describe(), fixed_cap(a.ty).unwrap(), other.map(|r| r.map(|z| z.len()))),
+                        }
+                    }
                     let z = match parse_call(a.ty, s, hex) {
                         Ok(Ok(z)) => z,
                         Ok(Err(e)) => fail!(format!("{}/rejected", what), "parsing the {} output {:?} of {} failed: {:?}", name, s, a.describe(), e),
